@@ -143,6 +143,43 @@ def run_case(h, args, twin):
     return False
 
 
+def concrete_probe(h, seed, want=60, tries=40000):
+    import random
+
+    rnd = random.Random(seed)
+    names = [a for a, _ in h.args]
+    dom = list(range(0, 13)) + [15, 20, 50, 99, 100, 101, 1000]
+    ran = 0
+    code = [compile(p, "<pre>", "eval") for p in h.pre]
+    for _ in range(tries):
+        vals = [rnd.choice(dom) for _ in names]
+        env = dict(zip(names, vals))
+        try:
+            if not all(eval(c, {}, env) for c in code):
+                continue
+        except Exception:
+            continue
+        ran += 1
+        stubs.reset()
+        rt.EXTRA.clear()
+        rt.set_fuel(h.fuel)
+        try:
+            r = h.case(*vals)
+        except rt.Unsupported:
+            r = None
+        except rt.LoopBound as e:
+            r = "LOOP: " + str(e)
+        except stubs.HarnessFailure as e:
+            r = "ENV: " + str(e)
+        except (Exception, SystemExit) as e:
+            r = "EXC: %s: %s @ %s" % (type(e).__name__, _short(e), _where(e))
+        if r is not None and r != "SKIP":
+            return {"args": vals, "reason": str(r), "found_by": "concrete probe after the symbolic run hit an unsupported operation"}, ran
+        if ran >= want:
+            break
+    return None, ran
+
+
 def _short(e):
     try:
         s = str(e)
@@ -226,6 +263,16 @@ def run_harness(mod, spec):
             verdict = "pre_unsat"
         else:
             verdict = "inconclusive"
+        if verdict == "inconclusive" and not twin:
+            # Safety net, bug hunting only: the symbolic run met an operation the runtime cannot model, or ran out of its
+            # time budget (typically because the code under analysis changed).  Probe the same harness with concrete values that satisfy the precondition;
+            # a failure found this way is replayed like any other counterexample, a clean probe leaves the obligation
+            # INCONCLUSIVE (it is never counted as discharged).
+            pf = concrete_probe(h, int(spec.get("seed", 0)))
+            out["probe"] = {"ran": pf[1], "failed": pf[0] is not None}
+            if pf[0] is not None:
+                STATS["fail"] = pf[0]
+                verdict = "refuted"
         out["verdict"] = verdict
         out["pre"] = h.pre
         out["args"] = [a for a, _ in h.args]
